@@ -466,7 +466,7 @@ func collapseFastForwards(
 							delete(mergedSeq, child.Hash)
 							mergedDag[immediateParent] = mergedDag[child.Hash]
 							delete(mergedDag, child.Hash)
-							parents[child.Hash] = parents[immediateParent]
+							delete(parents, child.Hash)
 							for _, vals := range parents {
 								for v := range vals {
 									if v == child.Hash {
@@ -482,7 +482,7 @@ func collapseFastForwards(
 				} else {
 					for parent := range parents[head] {
 						if !visited[parent] {
-							visited[head] = true
+							visited[parent] = true
 							queue = append(queue, parent)
 						}
 					}
